@@ -416,6 +416,9 @@ func inlineText(node ast.Node, src []byte) string {
 	for c := node.FirstChild(); c != nil; c = c.NextSibling() {
 		if t, ok := c.(*ast.Text); ok {
 			buf.WriteString(resolveText(t.Segment.Value(src)))
+			if t.SoftLineBreak() {
+				buf.WriteByte('\n')
+			}
 		} else if c.HasChildren() {
 			buf.WriteString(inlineText(c, src))
 		}
